@@ -199,6 +199,14 @@ func (f *frame) raise(cond *Term, v Value) {
 	if cond.IsFalse() {
 		return
 	}
+	if f.t.alone {
+		// a panic while evaluating a final-state predicate: only states the predicate applies to count
+		if f.finalGuard != nil {
+			cond = And(cond, f.finalGuard)
+		}
+		f.t.w.addViol("harness-predicate-panic", cond, "")
+		return
+	}
 	if !f.canRecover && !f.t.w.observe {
 		// no frame of this goroutine can recover: the process dies here; deferred calls are not modelled
 		f.t.w.crash(cond, "uncaught panic in goroutine "+f.t.name)
